@@ -13,7 +13,10 @@ from mujoco_warp._src.collision_core import write_contact
 from mujoco_warp._src.collision_primitive_core import capsule_capsule
 from mujoco_warp._src.collision_primitive_core import plane_box
 from mujoco_warp._src.collision_primitive_core import plane_capsule
+from mujoco_warp._src.collision_primitive_core import plane_cylinder
+from mujoco_warp._src.collision_primitive_core import plane_ellipsoid
 from mujoco_warp._src.collision_primitive_core import plane_sphere
+from mujoco_warp._src.collision_primitive_core import sphere_box
 from mujoco_warp._src.collision_primitive_core import sphere_capsule
 from mujoco_warp._src.collision_primitive_core import sphere_cylinder
 from mujoco_warp._src.collision_primitive_core import sphere_sphere
@@ -290,4 +293,39 @@ def k_sphere_cylinder(
   dist, pos, n = sphere_cylinder(sphere_pos, sphere_radius, cylinder_pos, cylinder_axis, cylinder_radius, cylinder_half_height)
   dist_out[0] = dist
   pos_out[0] = pos
+  normal_out[0] = n
+
+
+@wp.kernel
+def k_sphere_box(sphere_pos: wp.vec3, sphere_radius: float, box_pos: wp.vec3, box_rot: wp.mat33, box_size: wp.vec3, dist_out: wp.array[float], pos_out: wp.array[wp.vec3], normal_out: wp.array[wp.vec3]):
+  dist, pos, n = sphere_box(sphere_pos, sphere_radius, box_pos, box_rot, box_size)
+  dist_out[0] = dist
+  pos_out[0] = pos
+  normal_out[0] = n
+
+
+@wp.kernel
+def k_plane_ellipsoid(plane_normal: wp.vec3, plane_pos: wp.vec3, ellipsoid_pos: wp.vec3, ellipsoid_rot: wp.mat33, ellipsoid_size: wp.vec3, dist_out: wp.array[float], pos_out: wp.array[wp.vec3], normal_out: wp.array[wp.vec3]):
+  dist, pos, n = plane_ellipsoid(plane_normal, plane_pos, ellipsoid_pos, ellipsoid_rot, ellipsoid_size)
+  dist_out[0] = dist
+  pos_out[0] = pos
+  normal_out[0] = n
+
+
+@wp.kernel
+def k_plane_cylinder(
+  plane_normal: wp.vec3,
+  plane_pos: wp.vec3,
+  cylinder_center: wp.vec3,
+  cylinder_axis: wp.vec3,
+  cylinder_radius: float,
+  cylinder_half_height: float,
+  dist_out: wp.array[float],
+  pos_out: wp.array[wp.vec3],
+  normal_out: wp.array[wp.vec3],
+):
+  dist, pos, n = plane_cylinder(plane_normal, plane_pos, cylinder_center, cylinder_axis, cylinder_radius, cylinder_half_height)
+  for i in range(4):
+    dist_out[i] = dist[i]
+    pos_out[i] = pos[i]
   normal_out[0] = n
